@@ -406,7 +406,6 @@ func TestC17Neighbours(t *testing.T) {
 	}
 }
 
-
 // TestC17Large: "for every length" does not stop at 4200. Implementations switch
 // strategy at sizes nobody writes down (unrolled loops, wider registers,
 // non-temporal stores for buffers beyond the cache): lengths around every power of
